@@ -75,6 +75,10 @@ type Sched struct {
 
 var active *Sched
 
+// epoch counts explorations: controlled objects that keep state between calls (Pool) reset it when the epoch changes,
+// so that every execution starts from the same state and a recorded schedule replays identically.
+var epoch int64
+
 // Active reports whether an exploration is in progress.
 func Active() bool { return active != nil }
 
@@ -144,6 +148,7 @@ func Run(bodies []func(), prefix []int) (x Exec) {
 	for i, f := range bodies {
 		s.threads = append(s.threads, &thread{id: i, wake: make(chan struct{}), fn: f, pend: pending{kind: opStart}})
 	}
+	epoch++
 	active = s
 	defer func() { active = nil }()
 	for _, t := range s.threads {
@@ -313,7 +318,58 @@ func (w *WaitGroup) Wait() {
 
 type Once = sync.Once
 type Map = sync.Map
-type Pool = sync.Pool
 type Cond = sync.Cond
 
 func NewCond(l Locker) *Cond { return sync.NewCond(l) }
+
+// Pool is sync.Pool outside an exploration. Inside one it is a deterministic LIFO free list (sync.Pool's per-P caches
+// and GC-driven eviction are nondeterminism the harness must own) whose Get and Put are scheduling points on BOTH
+// sides of the operation: an object handed back to the pool while its bytes are still referenced by the caller is
+// observable only if another thread can run right after the Put.
+type Pool struct {
+	New   func() interface{}
+	real  sync.Pool
+	items []interface{}
+	ep    int64
+}
+
+func (p *Pool) sync() {
+	if p.ep != epoch {
+		p.ep = epoch
+		p.items = nil
+	}
+}
+
+func (p *Pool) Get() interface{} {
+	if active == nil {
+		if x := p.real.Get(); x != nil {
+			return x
+		}
+		if p.New != nil {
+			return p.New()
+		}
+		return nil
+	}
+	Yield()
+	p.sync()
+	var x interface{}
+	if n := len(p.items); n > 0 {
+		x = p.items[n-1]
+		p.items = p.items[:n-1]
+	} else if p.New != nil {
+		x = p.New()
+	}
+	Yield()
+	return x
+}
+
+func (p *Pool) Put(x interface{}) {
+	if active == nil {
+		p.real.Put(x)
+		return
+	}
+	Yield()
+	p.sync()
+	p.items = append(p.items, x)
+	Yield()
+}
